@@ -160,10 +160,13 @@ impl<W: Write> RustWrite<W> {
     pub fn write_uses(&mut self, super_prefix: &str, grammar: &Grammar) -> io::Result<()> {
         // things the user wrote
         for u in &grammar.uses {
+            // The text is copied verbatim; if it ends in a `//` comment the closing `;`
+            // has to go on a line of its own.
+            let end = if u.contains("//") { "\n;" } else { ";" };
             if u.starts_with("super::") {
-                rust!(self, "use {}{};", super_prefix, u);
+                rust!(self, "use {}{}{}", super_prefix, u, end);
             } else {
-                rust!(self, "use {};", u);
+                rust!(self, "use {}{}", u, end);
             }
         }
 
